@@ -4,7 +4,8 @@
    (coq/model/C02_Model.v); [perf] / [geo] stand for the performance model (C06) and the WGS-84 geodesic
    (C15), quantified universally; [fixed = true] is the hand-over that takes the last stored point (the
    specification, and the code once fixes/F1.diff is applied); [returned ... res] says fly returned [res]
-   for a flight with at least two points per phase.  Theorems over R; the same text runs at binary64 in the
+   for a flight with at least two points per phase, for one [call] (weather on/off with the ground-speed oracle
+   [gsp] of C16, a starting mass handed in or not, iteration on/off).  Theorems over R; the same text runs at binary64 in the
    correspondence. *)
 From Coq Require Import ZArith List Bool Reals.
 From AV Require Import lib.Num model.C02_Model proofs.C02_Container proofs.C02_Interp proofs.C02_Builder proofs.C02_Main.
@@ -44,13 +45,13 @@ Print Assumptions C02_time_order_before_fix_refuted.
 
 (* ---- builders/base.py, builders/legacy.py, ground_track.py ---- *)
 Theorem C02_mass_minus_fuel_constant :
-  forall perf geo inside, valid_oracle perf inside -> forall f it mi tol res, returned perf geo f it mi tol res ->
+  forall perf geo inside gsp, valid_oracle perf inside -> valid_wind gsp -> forall f c res, returned perf geo gsp f c res ->
   forall q, In q (points (r_traj res)) -> p_mass q - p_fuel q = r_start_mass res - r_total_fuel res.
 Proof. exact main_mass_minus_fuel_constant. Qed.
 Print Assumptions C02_mass_minus_fuel_constant.
 
 Theorem C02_fuel_and_mass_nonincreasing :
-  forall perf geo inside, valid_oracle perf inside -> forall f it mi tol res, returned perf geo f it mi tol res ->
+  forall perf geo inside gsp, valid_oracle perf inside -> valid_wind gsp -> forall f c res, returned perf geo gsp f c res ->
   forall i j, (i <= j)%nat -> (j < length (points (r_traj res)))%nat ->
     p_fuel (nth j (points (r_traj res)) pt0) <= p_fuel (nth i (points (r_traj res)) pt0) /\
     p_mass (nth j (points (r_traj res)) pt0) <= p_mass (nth i (points (r_traj res)) pt0).
@@ -58,7 +59,7 @@ Proof. exact main_fuel_and_mass_nonincreasing. Qed.
 Print Assumptions C02_fuel_and_mass_nonincreasing.
 
 Theorem C02_time_and_distance_nondecreasing :
-  forall perf geo inside, valid_oracle perf inside -> forall f it mi tol res, returned perf geo f it mi tol res ->
+  forall perf geo inside gsp, valid_oracle perf inside -> valid_wind gsp -> forall f c res, returned perf geo gsp f c res ->
   forall i j, (i <= j)%nat -> (j < length (points (r_traj res)))%nat ->
     p_time (nth i (points (r_traj res)) pt0) <= p_time (nth j (points (r_traj res)) pt0) /\
     p_dist (nth i (points (r_traj res)) pt0) <= p_dist (nth j (points (r_traj res)) pt0).
@@ -66,20 +67,20 @@ Proof. exact main_time_and_distance_nondecreasing. Qed.
 Print Assumptions C02_time_and_distance_nondecreasing.
 
 Theorem C02_first_point_carries_start :
-  forall perf geo inside, valid_oracle perf inside -> forall f it mi tol res, returned perf geo f it mi tol res ->
+  forall perf geo inside gsp, valid_oracle perf inside -> valid_wind gsp -> forall f c res, returned perf geo gsp f c res ->
   let q := nth 0 (points (r_traj res)) pt0 in
   p_mass q = r_start_mass res /\ p_fuel q = r_total_fuel res /\ p_time q = 0 /\ p_dist q = 0.
 Proof. exact main_first_point_carries_start. Qed.
 Print Assumptions C02_first_point_carries_start.
 
 Theorem C02_position_is_track_at_recorded_distance :
-  forall perf geo inside, valid_oracle perf inside -> forall f it mi tol res, returned perf geo f it mi tol res ->
+  forall perf geo inside gsp, valid_oracle perf inside -> valid_wind gsp -> forall f c res, returned perf geo gsp f c res ->
   Forall (pos_ok geo (origin_of f)) (points (r_traj res)).
 Proof. exact main_position_is_track_at_recorded_distance. Qed.
 Print Assumptions C02_position_is_track_at_recorded_distance.
 
 Theorem C02_altitude_schedule :
-  forall perf geo inside, valid_oracle perf inside -> forall f it mi tol res, returned perf geo f it mi tol res ->
+  forall perf geo inside gsp, valid_oracle perf inside -> valid_wind gsp -> forall f c res, returned perf geo gsp f c res ->
   exists s, @schedule RNum (f_o_alt f) (f_d_alt f) (f_max_alt f) = Ok s /\
     ((s_clm s = f_o_alt f + ft3000 /\ f_o_alt f + ft3000 < f_max_alt f) \/
      (s_clm s = f_o_alt f /\ f_max_alt f <= f_o_alt f + ft3000)) /\
@@ -103,40 +104,40 @@ Print Assumptions C02_schedule_offsets.
 
 (* unflyable missions are refused, never flown *)
 Theorem C02_unflyable_airport_above_ceiling_rejected :
-  forall (perf : oracle) (geo : geodesic) fixed (f : flight) given it mi tol,
-  f_max_alt f < f_o_alt f -> @fly RNum perf geo fixed f given it mi tol = Err ESchedule.
+  forall (perf : oracle) (geo : geodesic) fixed gsp wx gfix (f : flight) given it mi tol,
+  f_max_alt f < f_o_alt f -> @fly RNum perf geo fixed gsp wx gfix f given it mi tol = Err ESchedule.
 Proof. exact main_airport_above_ceiling_refused. Qed.
 Print Assumptions C02_unflyable_airport_above_ceiling_rejected.
 
 Theorem C02_unflyable_destination_above_cruise_rejected :
-  forall (perf : oracle) (geo : geodesic) fixed (f : flight) given it mi tol,
+  forall (perf : oracle) (geo : geodesic) fixed gsp wx gfix (f : flight) given it mi tol,
   f_o_alt f + ft3000 <= f_max_alt f - ft7000 -> f_max_alt f - ft7000 < f_d_alt f + ft3000 ->
-  @fly RNum perf geo fixed f given it mi tol = Err ESchedule.
+  @fly RNum perf geo fixed gsp wx gfix f given it mi tol = Err ESchedule.
 Proof. exact main_destination_above_cruise_refused. Qed.
 Print Assumptions C02_unflyable_destination_above_cruise_rejected.
 
 Theorem C02_unflyable_too_short_rejected :
-  forall (perf : oracle) (geo : geodesic) (step : R) m (p : pt) kp kg,
-  step < 0 -> @crz_loop RNum perf geo step (S m) p kp kg = Err ETrack.
+  forall (perf : oracle) (geo : geodesic) (gsp : wind) wx (step total : R) m (p : pt) kp kg,
+  step < 0 -> exists e, @crz_loop RNum perf geo gsp wx step total (S m) p kp kg = Err e.
 Proof. exact main_too_short_refused. Qed.
 Print Assumptions C02_unflyable_too_short_rejected.
 
 Theorem C02_returned_route_is_long_enough :
-  forall perf geo inside, valid_oracle perf inside -> forall f it mi tol res, returned perf geo f it mi tol res ->
+  forall perf geo inside gsp, valid_oracle perf inside -> valid_wind gsp -> forall f c res, returned perf geo gsp f c res ->
   exists s, @schedule RNum (f_o_alt f) (f_d_alt f) (f_max_alt f) = Ok s /\
     p_dist (last (t_climb (r_traj res)) pt0) <= f_total f - s_ddist s.
 Proof. exact main_route_long_enough. Qed.
 Print Assumptions C02_returned_route_is_long_enough.
 
 Theorem C02_unflyable_outside_envelope_rejected :
-  forall (perf : oracle) (geo : geodesic) rl (lhv start delta : R) m (idx : R) (p : pt) kp kg,
+  forall (perf : oracle) (geo : geodesic) (gsp : wind) wx rl (lhv start delta total : R) m (idx : R) (p : pt) kp kg,
   perf kp rl (start + idx * delta) (p_mass p) = None ->
-  @lc_loop RNum perf geo rl lhv start delta m idx p kp kg = Err EPerf.
+  @lc_loop RNum perf geo gsp wx rl lhv start delta total m idx p kp kg = Err EPerf.
 Proof. exact main_outside_envelope_refused. Qed.
 Print Assumptions C02_unflyable_outside_envelope_rejected.
 
 Theorem C02_returned_points_inside_envelope :
-  forall perf geo inside, valid_oracle perf inside -> forall f it mi tol res, returned perf geo f it mi tol res ->
+  forall perf geo inside gsp, valid_oracle perf inside -> valid_wind gsp -> forall f c res, returned perf geo gsp f c res ->
   Forall (fun q : pt => inside Climb (p_alt q) (p_mass q) = true) (t_climb (r_traj res)) /\
   Forall (fun q : pt => inside Cruise (p_alt q) (p_mass q) = true) (t_cruise (r_traj res)) /\
   Forall (fun q : pt => inside Descend (p_alt q) (p_mass q) = true) (t_descent (r_traj res)).
@@ -144,10 +145,25 @@ Proof. exact main_returned_points_inside_envelope. Qed.
 Print Assumptions C02_returned_points_inside_envelope.
 
 Theorem C02_mass_iteration_tolerance :
-  forall perf geo inside, valid_oracle perf inside -> forall f it mi tol res, returned perf geo f it mi tol res ->
-  it = true -> Rabs (p_fuel (last (points (r_traj res)) pt0) / r_total_fuel res) < tol.
+  forall perf geo inside gsp, valid_oracle perf inside -> valid_wind gsp -> forall f c res, returned perf geo gsp f c res ->
+  c_it c = true -> Rabs (p_fuel (last (points (r_traj res)) pt0) / r_total_fuel res) < c_tol c.
 Proof. exact main_mass_iteration_tolerance. Qed.
 Print Assumptions C02_mass_iteration_tolerance.
+
+(* a starting mass handed in by the caller (after fixes/FC17a.diff): it is the mass flown *)
+Theorem C02_given_starting_mass_is_flown :
+  forall perf geo inside gsp, valid_oracle perf inside -> valid_wind gsp -> forall f c res, returned perf geo gsp f c res ->
+  forall m, c_given c = Some m -> c_it c = false ->
+    r_start_mass res = m /\ p_mass (nth 0 (points (r_traj res)) pt0) = m.
+Proof. exact main_given_starting_mass_is_flown. Qed.
+Print Assumptions C02_given_starting_mass_is_flown.
+
+(* the finding FC17a as the code stood: with a starting mass handed in, fly never returns a trajectory *)
+Theorem C02_given_starting_mass_flies_before_fix_refuted :
+  forall (perf : oracle) (geo : geodesic) (gsp : wind) wx (f : flight) (m : R) it mi tol,
+  exists e, @fly RNum perf geo true gsp wx false f (Some m) it mi tol = Err e.
+Proof. exact main_given_mass_never_flies_before_fix. Qed.
+Print Assumptions C02_given_starting_mass_flies_before_fix_refuted.
 
 (* ---- trajectories/trajectory.py: interpolate_time ---- *)
 Theorem C02_resample_at_own_times_id : forall (nan : R) xs ys i,
